@@ -76,7 +76,9 @@ JsTok ==
      tplA     |-> <<96, 120, 36, 123>>,   \* '`x${'
      tplM     |-> <<125, 121, 36, 123>>,   \* '}y${'
      tplZ     |-> <<125, 122, 96>>,   \* '}z`'
-     of       |-> <<111, 102>>]   \* 'of'
+     of       |-> <<111, 102>>,   \* 'of'
+     use      |-> <<117, 115, 101>>,   \* 'use'  (a name that begins like a unicode escape does after a backslash)
+     undef    |-> <<117, 110, 100, 101, 102, 105, 110, 101, 100>>]   \* 'undefined'
 JsonTok ==
     [lbr      |-> <<91>>,   \* '['
      rbr      |-> <<93>>,   \* ']'
@@ -125,7 +127,8 @@ JsStmts == <<
     <<"function", "sp", "f", "lp", "lbr", "a", "rbr", "comma", "lb", "b", "rb", "rp", "lb", "rb">>,    \* function f([a],{b}){}
     <<"try", "lb", "rb", "catch", "lp", "lb", "e", "rb", "rp", "lb", "rb">>,                           \* try{}catch({e}){}
     <<"for", "lp", "var", "sp", "lbr", "a", "rbr", "sp", "of", "sp", "b", "rp", "lb", "rb">>,          \* for(var [a] of b){}
-    <<"var", "sp", "lbr", "lbr", "a", "rbr", "comma", "lb", "b", "rb", "rbr", "eq", "c">>              \* var [[a],{b}]=c
+    <<"var", "sp", "lbr", "lbr", "a", "rbr", "comma", "lb", "b", "rb", "rbr", "eq", "c">>,             \* var [[a],{b}]=c
+    <<"use", "lp", "a", "rp", "semi", "a", "eq", "undef">>                                             \* use(a);a=undefined
 >>
 \* statements that every statement is combined with (before and after it) in two-statement documents
 JsTails == 1..3
